@@ -244,13 +244,22 @@ func (h *history) run(p plan, rng *rand.Rand) {
 		}
 	}
 	var wg sync.WaitGroup
-	start := make(chan struct{})
+	// a spin barrier: all workers leave it within nanoseconds of each other, so that operations that take
+	// well under a microsecond really overlap (recording and checking are separate phases, so the
+	// spinning workers do not compete with the checker for CPUs)
+	var ready atomic.Int32
 	per := make([][]rec, p.workers)
 	for w := 0; w < p.workers; w++ {
 		wg.Add(1)
 		go func() {
 			defer wg.Done()
-			<-start
+			ready.Add(1)
+			for spins := 0; ready.Load() < int32(p.workers); spins++ {
+				if spins > 5000 {
+					runtime.Gosched()
+					spins = 0
+				}
+			}
 			for i, s := range scripts[w] {
 				key := keys[s.key]
 				r := rec{in: input{Kind: s.kind, Key: key}, client: w}
@@ -298,7 +307,6 @@ func (h *history) run(p plan, rng *rand.Rand) {
 			}
 		}()
 	}
-	close(start)
 	wg.Wait()
 	for _, p := range per {
 		h.recs = append(h.recs, p...)
@@ -378,13 +386,13 @@ func TestLinearizable(t *testing.T) {
 		idx  int
 		p    plan
 	}
-	jobs := make(chan job, 64)
-	var cw sync.WaitGroup
-	for k := 0; k < mon.Workers(); k++ {
-		cw.Add(1)
-		go func() {
-			defer cw.Done()
-			for j := range jobs {
+	// histories are recorded in batches with nothing else running, then checked in parallel
+	const batch = 4000
+	pending := make([]job, 0, batch)
+	checkBatch := func() {
+		mon.ParallelEach(len(pending), func(_, bi int) {
+			{
+				j := pending[bi]
 				var lo [nKinds][nKinds]int64
 				if overlaps(append(append([]rec{}, j.h.recs...), j.h.evicts...), &lo) {
 					withOverlap.Add(1)
@@ -411,7 +419,8 @@ func TestLinearizable(t *testing.T) {
 						map[string]any{"config": j.h.conf, "key": key, "history": j.h.dump(key)})
 				}
 			}
-		}()
+		})
+		pending = pending[:0]
 	}
 	for i := 0; i < nHist && !r.TooMany(); i++ {
 		rng := r.Rand(uint64(i))
@@ -461,10 +470,12 @@ func TestLinearizable(t *testing.T) {
 		if i < 3 {
 			r.Sample(map[string]any{"config": cf.Name, "workers": p.workers, "keys": p.keys, "history_of_k0": h.dump("k0")})
 		}
-		jobs <- job{h, p.keys, i, p}
+		pending = append(pending, job{h, p.keys, i, p})
+		if len(pending) == batch {
+			checkBatch()
+		}
 	}
-	close(jobs)
-	cw.Wait()
+	checkBatch()
 	r.Count("histories", int64(nHist))
 	r.Count("histories_with_overlapping_ops_on_a_key", withOverlap.Load())
 	r.Count("evictions_observed", evictions.Load())
